@@ -323,6 +323,7 @@ fn send_replication(
     mut entity_buffer: ResMut<EntityBuffer>,
     mut despawn_buffer: ResMut<DespawnBuffer>,
     mut server: ResMut<RepliconServer>,
+    entities: &Entities,
     track_mutate_messages: Res<TrackMutateMessages>,
     registry: Res<ReplicationRegistry>,
     type_registry: Res<AppTypeRegistry>,
@@ -338,7 +339,7 @@ fn send_replication(
     }
 
     collect_mappings(&mut serialized, &mut clients)?;
-    collect_despawns(&mut serialized, &mut clients, &mut despawn_buffer)?;
+    collect_despawns(&mut serialized, &mut clients, &mut despawn_buffer, entities)?;
     collect_removals(&mut serialized, &mut clients, &removal_buffer)?;
     collect_changes(
         &mut serialized,
@@ -475,6 +476,7 @@ fn collect_despawns(
         Option<&mut ClientVisibility>,
     )>,
     despawn_buffer: &mut DespawnBuffer,
+    entities: &Entities,
 ) -> Result<()> {
     for entity in despawn_buffer.drain(..) {
         let entity_range = serialized.write_entity(entity)?;
@@ -484,7 +486,10 @@ fn collect_despawns(
                     trace!("writing despawn for `{entity}` for client `{client_entity}`");
                     message.add_despawn(entity_range.clone());
                 }
-                visibility.remove_despawned(entity);
+                // Keep visibility settings for entities that only stopped being replicated.
+                if !entities.contains(entity) {
+                    visibility.remove_despawned(entity);
+                }
             } else {
                 trace!("writing despawn for `{entity}` for client `{client_entity}`");
                 message.add_despawn(entity_range.clone());
